@@ -83,28 +83,36 @@ def _f(v):
         return repr(v)
 
 
-def _dyadic_model(eng, extra, timeout_ms=3000):
-    """try to find a model whose real inputs are multiples of 2^-10 (exactly representable, so the
-    floating-point replay follows the same path); fall back to any model"""
+def _models(eng, extra, timeout_ms=1500):
+    """Model candidates for replays, in order of preference: real inputs that are multiples of 2^-10 with
+    |v| <= 1024, the same with |v| <= 2^20 (exactly representable and well inside float range, so that the
+    floating-point replay follows the same path), then any model."""
     s = eng.solver
-    s.push()
-    try:
-        s.set("timeout", timeout_ms)
-        for name, v in list(eng.vars.items()):
-            if "!" in name or not z3.is_real(v):
-                continue
-            k = z3.Int("dy$" + name)
-            s.add(v * 1024 == z3.ToReal(k))
-        r = s.check(*extra)
-        if r == z3.sat:
-            m = s.model()
-            return eng.extract_model(m)
-    finally:
-        s.pop()
-        s.set("timeout", eng_timeout(eng))
+    inputs = [(name, v) for name, v in list(eng.vars.items()) if "!" not in name and z3.is_real(v)]
+    for bound in (1024, 2 ** 20):
+        s.push()
+        try:
+            s.set("timeout", timeout_ms)
+            for name, v in inputs:
+                k = z3.Int("dy$" + name)
+                s.add(v * 1024 == z3.ToReal(k))
+                s.add(v >= -bound, v <= bound)
+            r = s.check(*extra)
+            if r == z3.sat:
+                yield eng.extract_model(s.model())
+        finally:
+            s.pop()
+            s.set("timeout", eng_timeout(eng))
     r = eng.check(*extra)
     if r == z3.sat:
-        return eng.extract_model(eng.solver.model())
+        yield eng.extract_model(eng.solver.model())
+    elif r == z3.unknown:
+        eng.model_unknown = True
+
+
+def _dyadic_model(eng, extra, timeout_ms=4000):
+    for m in _models(eng, extra, timeout_ms):
+        return m
     return None
 
 
@@ -113,16 +121,29 @@ def eng_timeout(eng):
 
 
 def known_class_expr(eng, expr_src):
-    """z3 Bool describing the witness class of a known finding, over the path's variables"""
-    def v(name):
-        if name not in eng.vars:
-            raise KeyError(name)
-        return eng.vars[name]
-    env = {"v": v, "And": z3.And, "Or": z3.Or, "Not": z3.Not, "If": z3.If, "Implies": z3.Implies, "RealVal": z3.RealVal}
-    try:
-        return eval(expr_src, env)
-    except KeyError:
+    """z3 Bool describing the witness class of a known finding, over the path's variables.  expr_src is one
+    expression or a list of alternatives; alternatives naming variables that do not exist on this path (e.g. a
+    coordinate whose bound is infinite) are skipped.  Returns None when no class is given at all."""
+    if expr_src is None:
         return None
+    from .engine import real_val
+
+    def v(name, fallback=None):
+        if name in eng.vars:
+            return eng.vars[name]
+        if fallback is not None and fallback in eng.vars:
+            return eng.vars[fallback]
+        raise KeyError(name)
+    env = {"v": v, "And": z3.And, "Or": z3.Or, "Not": z3.Not, "If": z3.If, "Implies": z3.Implies, "F": real_val}
+    alts = []
+    for src in (expr_src if isinstance(expr_src, list) else [expr_src]):
+        try:
+            alts.append(eval(src, env))
+        except KeyError:
+            continue
+    if not alts:
+        return z3.BoolVal(False)
+    return z3.Or(*alts)
 
 
 def explore(case, roots=None, max_paths=10**9, deadline=None, timeout_ms=20000, xval=2, known=(), seed=0,
@@ -135,6 +156,7 @@ def explore(case, roots=None, max_paths=10**9, deadline=None, timeout_ms=20000, 
                ob_queries=0, discharged=0, trivially_true=0, labels={}, violations=[], known_hits=[], spurious=[],
                tags={}, xval_ok=0, xval_fail=[], samples=[], exceptions={}, forks=0)
     xval_done = 0
+    known_replayed = {}
     while work:
         if res["paths"] >= max_paths or (deadline is not None and time.time() > deadline):
             break
@@ -218,29 +240,48 @@ def explore(case, roots=None, max_paths=10**9, deadline=None, timeout_ms=20000, 
                 if kf.get("obligation") == label:
                     kmatch = kf
                     break
-            model = None
+            def try_models(extra):
+                rec_ = None
+                for model in _models(eng, extra):
+                    rep = concrete_run(case, model)
+                    if info is not None:
+                        ok_ = rep["status"] == "exception" and rep["exc"]["type"] == info["type"]
+                    else:
+                        ok_ = rep["status"] == "ok" and rep["verdicts"].get(label) is False
+                    rec_ = dict(label=label, model=model_to_json(model), prefix=eng.trace, tag=tag, replay=rep, exc=info,
+                                reproduced=ok_)
+                    if ok_:
+                        break
+                return rec_
             is_known = False
+            rec = None
             if kmatch is not None:
-                kc = known_class_expr(eng, kmatch["witness_class_z3"]) if kmatch.get("witness_class_z3") else None
+                kc = known_class_expr(eng, kmatch.get("witness_class_z3"))
                 if kc is not None:
-                    model = _dyadic_model(eng, neg + [z3.Not(kc)])
-                    if model is None:
+                    rk = eng.check(*(neg + [z3.Not(kc)]))
+                    if rk == z3.unknown:
+                        res["unknown"] += 1
+                        continue
+                    if rk == z3.sat:
+                        rec = try_models(neg + [z3.Not(kc)])   # outside the listed witness class: a new violation
+                    else:
                         is_known = True
                 else:
-                    is_known = kmatch.get("witness_class_z3") is None
-            if model is None:
-                model = _dyadic_model(eng, neg)
-            if model is None:
+                    is_known = True
+            if is_known and known_replayed.get(kmatch.get("id"), 0) >= 2:
+                # the listed finding has already been re-derived and replayed in this job
+                L["violated"] += 1
+                path_violated = True
+                res["known_hits"].append(dict(label=label, known=kmatch.get("id")))
+                continue
+            if rec is None:
+                rec = try_models(neg)
+            if rec is None:
                 res["unknown"] += 1
                 continue
-            rep = concrete_run(case, model)
-            reproduced = False
-            if info is not None:
-                reproduced = rep["status"] == "exception" and rep["exc"]["type"] == info["type"]
-            else:
-                reproduced = rep["status"] == "ok" and rep["verdicts"].get(label) is False
-            rec = dict(label=label, model=model_to_json(model), prefix=eng.trace, tag=tag, replay=rep, exc=info,
-                       reproduced=reproduced)
+            reproduced = rec["reproduced"]
+            if reproduced and is_known:
+                known_replayed[kmatch.get("id")] = known_replayed.get(kmatch.get("id"), 0) + 1
             if not reproduced:
                 res["spurious"].append(rec)
                 continue
@@ -270,6 +311,9 @@ def explore(case, roots=None, max_paths=10**9, deadline=None, timeout_ms=20000, 
                         res["samples"].append(dict(inputs={k: v for k, v in list(model_to_json(model).items())[:24]}, tag=tag,
                                                    obligations=sorted({l for l, _, _ in obligations}),
                                                    decisions=len(eng.trace)))
+                elif eng.uf_apps:
+                    # log/exp/erfc are over-approximated: a model of the axioms need not be a run of the real functions
+                    res["xval_uf_skipped"] = res.get("xval_uf_skipped", 0) + 1
                 else:
                     res["xval_fail"].append(dict(model=model_to_json(model), sym_tag=tag, replay=rep))
         res["queries"] += eng.n_queries
@@ -285,7 +329,7 @@ def explore(case, roots=None, max_paths=10**9, deadline=None, timeout_ms=20000, 
 def merge(a, b):
     """merge result b into a"""
     for k in ("paths", "feasible", "infeasible", "queries", "solver_s", "unknown", "aborted", "ob_queries", "discharged",
-              "trivially_true", "xval_ok", "forks", "wall_s"):
+              "trivially_true", "xval_ok", "forks", "wall_s", "xval_uf_skipped"):
         a[k] = a.get(k, 0) + b.get(k, 0)
     for k in ("abort_reasons", "tags", "exceptions"):
         d = a.setdefault(k, {})
